@@ -12,6 +12,29 @@ NOT_BUILT = "check not built yet in this round (claimed by DESIGN.md; " \
             "listed here until its static check exists and is exact)"
 
 CHECKS = {
+    "C14": {
+        "text": "The four move kernels are summarised into guarded-min "
+                "normal forms whose per-blocker limit is compared with the "
+                "documented bottom-left rule on all 23 917 weak orderings of "
+                "the two boxes' coordinates (L<R, B<T), with window, start "
+                "bound and update as polynomial identities; the call "
+                "sequence automaton of the placement loop (down first, then "
+                "left), the drop position, the new-bin reset and the "
+                "next-fit / ascending first-fit policies are decided on the "
+                "CFG / normal forms; statelessness is decided by "
+                "write-before-read on the CFG plus abstract interpretation "
+                "showing every packing row read is the current or an "
+                "earlier one and every bin-table cell read lies below "
+                "bin_id.",
+        "design_ref": "DESIGN.md section 4, C14",
+        "note": "Decides D14.1-D14.4. The composition of the pieces into "
+                "'exactly the documented packing' is by construction of the "
+                "rules, not by an executable model. Trusted: P2, boxes "
+                "already placed satisfy L<R, B<T (C01 D1.2).",
+        "technique": "loop-reduction normal forms + exhaustive "
+                     "weak-ordering equivalence + CFG automaton / "
+                     "dominance + abstract interpretation (row freshness)",
+    },
     "C13": {
         "text": "Every subscript position of every boundscheck=False njit "
                 "kernel (58 kernels, ~640 sites) is an obligation "
